@@ -90,6 +90,11 @@ def step (d : DSt) (w : List String) : DSt × String :=
   let m := d.m.clearEv
   match w with
   | ["r", "begin"] => ({}, "R ok | C - | I ret=0")
+  | ["r", "traits", which] =>
+    -- both reference traits have the same counting behaviour
+    if (which == "input" ∨ which == "meta") ∧ (List.range 3).all (fun h => match m.hnd.getD h none with
+        | some o => !(m.isMetaObj o) | none => true)
+    then (d, "R ok | C - | I ret=0") else (d, "bad-op")
   | ["r", "cnt", v] =>
     match parseCount v with
     | some n => ({ d with cnt := n }, s!"R ok | C cnt={fmtCount n} | I ret=0")
@@ -224,7 +229,225 @@ def step (d : DSt) (w : List String) : DSt × String :=
     finish d m' true "0" [{ ok := true, st := s2.1, evs := s2.2 }]
   | _ => (d, "bad-op")
 
+/-! ### C++ part: `mpt::reference<T>` with objects that own a handle (slots 3.. of the handle list) -/
+
+def fmtX (objs : List (Bool × Nat × Nat × Nat × Bool × Bool)) (hnd : List (Option Nat)) : String :=
+  let os := (List.range objs.length).map fun i =>
+    match objs.getD i (false, 0, 0, 0, false, false) with
+    | (alive, count, add, unref, destroyed, dead) => fmtObj i .hmeta alive count add unref destroyed dead
+  let hs := (List.range 3).map fun h =>
+    match hnd.getD h none with | some o => s!"h{h}={o}" | none => s!"h{h}=-"
+  let ns := (List.range objs.length).map fun i =>
+    match hnd.getD (3 + i) none with | some o => s!"n{i}={o}" | none => s!"n{i}=-"
+  " ".intercalate (os ++ hs ++ ns)
+
+def fmtXM (s : St) : String :=
+  fmtX ((List.range s.objs.length).map fun i =>
+    let o := s.obj i; let e := s.evOf i
+    (o.alive, o.count, e.add, e.unref, e.destroyed, e.dead)) s.hnd
+
+def fmtXS (a : Refs.Alt) : String :=
+  let s := a.st
+  fmtX ((List.range s.objs.length).map fun i =>
+    let o := s.objs.getD i default
+    let evs := a.evs.filter (·.obj == i)
+    (!o.dead, Refs.refs s i, (evs.map (·.add)).foldl (· + ·) 0, (evs.map (·.unref)).foldl (· + ·) 0,
+     evs.any (·.destroyed), evs.any (·.dead))) s.hnd
+
+def finishX (d : DSt) (m' : St) (alts : List Refs.Alt) : DSt × String :=
+  let c := fmtXM m'
+  let s' := match alts.find? (fun a => fmtXS a == c) with | some a => a.st | none => d.s
+  ({ d with m := m', s := s' },
+   s!"R ok | C {c} | I ret=0 | S " ++ " || ".intercalate (alts.map fun a => s!"ok ; {fmtXS a}"))
+
+/-- settle the spec state after a plain spec operation -/
+def settleAlts (alts : List Refs.Alt) : List Refs.Alt := alts.map (Refs.settled 3)
+
+def stepX (d : DSt) (w : List String) : DSt × String :=
+  let m := d.m.clearEv
+  let fuel := m.objs.length + 1
+  match w with
+  | ["x", "begin"] =>
+    ({ m := { hnd := List.replicate 6 none }, s := { hnd := List.replicate 6 none } }, "R ok | C - | I ret=0")
+  | ["x", "new", hs, v] =>
+    match idx hs 3, parseCount v with
+    | some h, some n =>
+      if m.objs.length ≥ 3 ∨ n = 0 then (d, "bad-op") else
+      let i := m.objs.length
+      -- the old referent of the handle is released, the new object arrives with its preset counter
+      let m1 := (m.drop h).cascade 3 fuel
+      let m2 : St := { m1 with objs := m1.objs ++ [{ kind := .hmeta, count := n, alive := true, ext := n - 1 }], ev := m1.ev ++ [{}],
+                               hnd := m1.hnd.set h (some i) }
+      let a1 := settleAlts (Refs.drop d.s h)
+      let alts := a1.map fun a =>
+        { a with st := { objs := a.st.objs ++ [{ kind := .hmeta, ext := n - 1 }], hnd := a.st.hnd.set h (some i) } }
+      finishX d m2 alts
+    | _, _ => (d, "bad-op")
+  | ["x", "copy", hs, gs] =>
+    match idx hs 3, idx gs 3 with
+    | some h, some g =>
+      if h = g then (d, "bad-op") else
+      let m1 := (m.drop h).cascade 3 fuel
+      let m2 := (m1.assignRef h (m1.hnd.getD g none)).cascade 3 fuel
+      -- S: the handle is destroyed, then constructed as a copy
+      let alts := (settleAlts (Refs.drop d.s h)).flatMap fun a =>
+        (Refs.xassign 3 a.st h (a.st.hnd.getD g none)).map fun b => { b with evs := a.evs ++ b.evs }
+      finishX d m2 alts
+    | _, _ => (d, "bad-op")
+  | ["x", "assign", hs, gs] =>
+    match idx hs 3, idx gs 3 with
+    | some h, some g =>
+      finishX d ((m.assignRef h (m.hnd.getD g none)).cascade 3 fuel) (Refs.xassign 3 d.s h (d.s.hnd.getD g none))
+    | _, _ => (d, "bad-op")
+  | ["x", "move", hs, gs] =>
+    match idx hs 3, idx gs 3 with
+    | some h, some g => finishX d ((m.moveRef h g).cascade 3 fuel) (Refs.xmove 3 d.s h g)
+    | _, _ => (d, "bad-op")
+  | ["x", "next", hs] =>
+    match idx hs 3 with
+    | some h =>
+      match m.hnd.getD h none with
+      | none => (d, "bad-op")
+      | some o =>
+        finishX d ((m.assignRef h (m.hnd.getD (3 + o) none)).cascade 3 fuel) (Refs.xassign 3 d.s h (d.s.hnd.getD (3 + o) none))
+    | none => (d, "bad-op")
+  | ["x", "setnext", os, gs] =>
+    match idx os m.objs.length, idx gs 3 with
+    | some o, some g =>
+      if !(m.obj o).alive then (d, "bad-op") else
+      finishX d ((m.assignRef (3 + o) (m.hnd.getD g none)).cascade 3 fuel) (Refs.xassign 3 d.s (3 + o) (d.s.hnd.getD g none))
+    | _, _ => (d, "bad-op")
+  | ["x", "drop", hs] =>
+    match idx hs 3 with
+    | some h => finishX d ((m.drop h).cascade 3 fuel) (settleAlts (Refs.drop d.s h))
+    | none => (d, "bad-op")
+  | ["x", "detach", hs] =>
+    match idx hs 3 with
+    | some h => finishX d (m.detachRef h) (Refs.xdetach d.s h)
+    | none => (d, "bad-op")
+  | ["x", "ext", os, "unref"] =>
+    match idx os m.objs.length with
+    | some o =>
+      if !(m.obj o).alive ∨ (m.obj o).ext = 0 then (d, "bad-op") else
+      finishX d ((m.extUnref o).cascade 3 fuel) (settleAlts (Refs.extUnref d.s o))
+    | none => (d, "bad-op")
+  | ["x", "end"] =>
+    let m1 := (List.range 3).foldl (fun st h => (st.drop h).cascade 3 fuel) m
+    let m2 := (List.range m1.objs.length).foldl (fun st o =>
+      (List.range 16).foldl (fun st2 _ =>
+        let ob := st2.obj o
+        if ob.alive ∧ ob.ext ≠ 0 ∧ ob.ext < 16 then (st2.extUnref o).cascade 3 fuel else st2) st) m1
+    let step1 := fun (acc : Refs.SSt × List Refs.SEv) (al : List Refs.Alt) =>
+      match al with
+      | a :: _ => let b := Refs.settled 3 a; (b.st, acc.2 ++ b.evs)
+      | [] => acc
+    let s1 := (List.range 3).foldl (fun acc h => step1 acc (Refs.drop acc.1 h)) (d.s, [])
+    let s2 := (List.range d.s.objs.length).foldl (fun acc o =>
+      (List.range 16).foldl (fun acc2 _ =>
+        let ob := acc2.1.objs.getD o default
+        if !ob.dead ∧ ob.ext ≠ 0 ∧ ob.ext < 16 then step1 acc2 (Refs.extUnref acc2.1 o) else acc2) acc) s1
+    finishX d m2 [{ ok := true, st := s2.1, evs := s2.2 }]
+  | _ => (d, "bad-op")
+
+/-! ### reply contexts: metatype handles are the external references, detached handles the handle slots -/
+
+def fmtK (objs : List (Bool × Bool)) (hnd : List (Option Nat)) : String :=
+  let os := (List.range objs.length).map fun i =>
+    match objs.getD i (false, false) with
+    | (alive, freed) => s!"o{i}={if alive then "A" else "D"}{if freed then ":freed" else ""}"
+  let hs := (List.range 3).map fun h => match hnd.getD h none with | some o => s!"h{h}={o}" | none => s!"h{h}=-"
+  " ".intercalate (os ++ hs)
+
+def fmtKM (s : St) : String :=
+  fmtK ((List.range s.objs.length).map fun i => ((s.obj i).alive, (s.evOf i).destroyed)) s.hnd
+
+def fmtKS (a : Refs.Alt) : String :=
+  fmtK ((List.range a.st.objs.length).map fun i =>
+    (!(a.st.objs.getD i default).dead, (a.evs.filter (·.obj == i)).any (·.destroyed))) a.st.hnd
+
+def fmtKI (s : St) : String :=
+  String.join ((List.range s.objs.length).map fun i => s!" m{i}={(s.obj i).ext}")
+
+def finishK (d : DSt) (m' : St) (ok : Bool) (alts : List Refs.Alt) : DSt × String :=
+  let c := fmtKM m'
+  let s' := match alts.find? (fun a => a.ok == ok && fmtKS a == c) with | some a => a.st | none => d.s
+  ({ d with m := m', s := s' },
+   s!"R {if ok then "ok" else "refused"} | C {c} | I{fmtKI m'} | S " ++
+     " || ".intercalate (alts.map fun a => s!"{if a.ok then "ok" else "refused"} ; {fmtKS a}"))
+
+/-- the request side of the context is kept in its `elems`: [reply data pending, send target set] -/
+def isArmed (s : St) (o : Nat) : Bool := (s.obj o).elems.getD 0 0 != 0
+def hasSend (s : St) (o : Nat) : Bool := (s.obj o).elems.getD 1 0 != 0
+def setFlags (s : St) (o : Nat) (armed send : Bool) : St :=
+  { s with objs := s.objs.set o { (s.obj o) with elems := [if armed then 1 else 0, if send then 1 else 0] } }
+def setArmed (s : St) (o : Nat) (b : Bool) : St := setFlags s o b (hasSend s o)
+
+def stepK (d : DSt) (w : List String) : DSt × String :=
+  let m := d.m.clearEv
+  match w with
+  | ["k", "begin"] => ({}, "R ok | C - | I -")
+  | ["k", "new"] =>
+    if m.objs.length ≥ 2 then (d, "bad-op") else
+    let m' : St := { m with objs := m.objs ++ [{ kind := .raw, count := 1, alive := true, ext := 1, elems := [0, 1] }], ev := m.ev ++ [{}] }
+    let s' : Refs.SSt := { d.s with objs := d.s.objs ++ [{ kind := .raw, ext := 1 }] }
+    finishK { d with s := s' } m' true [{ ok := true, st := s' }]
+  | ["k", "arm", os] =>
+    match idx os m.objs.length with
+    | some o => if !(m.obj o).alive then (d, "bad-op") else finishK d (setArmed m o true) true [{ ok := true, st := d.s }]
+    | none => (d, "bad-op")
+  | "k" :: "defer" :: hs :: os :: rest =>
+    match idx hs 3, idx os m.objs.length with
+    | some h, some o =>
+      if (rest ≠ [] ∧ rest ≠ ["nomem"]) ∨ !handleEmpty m h ∨ !(m.obj o).alive then (d, "bad-op") else
+      -- S: a detached handle is one more reference, or the request is refused without any change
+      let alts := Refs.take d.s h o ++ [{ ok := false, st := d.s }]
+      if !isArmed m o ∨ rest = ["nomem"] then finishK d m false alts
+      else
+        let (m', r) := m.take h o
+        match r with
+        | .ok _ => finishK d (setArmed m' o false) true alts
+        | .err _ => finishK d m' false alts
+    | _, _ => (d, "bad-op")
+  | ["k", "addref", os] =>
+    match idx os m.objs.length with
+    | some o =>
+      if !(m.obj o).alive ∨ (m.obj o).ext = 0 then (d, "bad-op") else
+      let (m', ok) := m.extAdd o
+      finishK d m' ok (Refs.extAdd d.s o)
+    | none => (d, "bad-op")
+  | ["k", "unref", os] =>
+    match idx os m.objs.length with
+    | some o =>
+      if !(m.obj o).alive ∨ (m.obj o).ext = 0 then (d, "bad-op") else
+      -- a metatype release answers a pending request while the send target is set; any but the last clears the target
+      let m1 := setFlags m o (isArmed m o && !hasSend m o) (hasSend m o && (m.obj o).count ≤ 1)
+      finishK d (m1.extUnref o) true (Refs.extUnref d.s o)
+    | none => (d, "bad-op")
+  | ["k", "release", hs] =>
+    match idx hs 3 with
+    | some h => if handleEmpty m h then (d, "bad-op") else finishK d (m.drop h) true (Refs.drop d.s h)
+    | none => (d, "bad-op")
+  | ["k", "end"] =>
+    let m1 := (List.range 3).foldl (fun st h => st.drop h) m
+    let m2 := (List.range m1.objs.length).foldl (fun st o =>
+      (List.range 64).foldl (fun st2 _ => if (st2.obj o).ext ≠ 0 then ({ st2 with objs := st2.objs.set o { (st2.obj o) with elems := [] } } : St).extUnref o else st2) st) m1
+    let step1 := fun (acc : Refs.SSt × List Refs.SEv) (al : List Refs.Alt) =>
+      match al with | a :: _ => (a.st, acc.2 ++ a.evs) | [] => acc
+    let s1 := (List.range 3).foldl (fun acc h => step1 acc (Refs.drop acc.1 h)) (d.s, [])
+    let s2 := (List.range d.s.objs.length).foldl (fun acc o =>
+      (List.range 64).foldl (fun acc2 _ =>
+        if (acc2.1.objs.getD o default).ext ≠ 0 then step1 acc2 (Refs.extUnref acc2.1 o) else acc2) acc) s1
+    finishK d m2 true [{ ok := true, st := s2.1, evs := s2.2 }]
+  | _ => (d, "bad-op")
+
+/-- dispatch on the driver part -/
+def stepAll (d : DSt) (w : List String) : DSt × String :=
+  match w with
+  | "x" :: _ => stepX d w
+  | "k" :: _ => stepK d w
+  | _ => step d w
+
 def main (_args : List String) : IO Unit := do
-  Driver.loop (← IO.getStdin) (← IO.getStdout) step ({} : DSt)
+  Driver.loop (← IO.getStdin) (← IO.getStdout) stepAll ({} : DSt)
 
 end Driver.Refcount
